@@ -258,7 +258,12 @@ def run(case: dict[str, Any]) -> dict[str, Any]:
                         break
             if violation is None:
                 res_b_plain = [r for i, r in enumerate(res_b) if i not in matched]
-                if key(err_b) != key(err_c) or res_b_plain != res_c:
+                if err_b and not err_c and len(res_b) in matched and "Session variable" in str(err_b.get("msg")) and cfg["hazards"].get("dollar"):
+                    # the statement that raised is itself a match: it should have been no-op'd, but variables are inlined before the patterns
+                    # are looked at, and a $word inside its literal counts as a variable (the known C15 finding dollar-literal)
+                    violation = v_("nop-match-raises/dollar-literal", "a statement matching a nop pattern is no-op'd whatever its literals contain",
+                                   {"patterns": cfg["nop"], "statement": stmts[len(res_b)], "error": err_b})
+                elif key(err_b) != key(err_c) or res_b_plain != res_c:
                     violation = v_("nop-changes-other-statements", "statements that match no pattern behave exactly as without the option",
                                    {"patterns": cfg["nop"], "with_option": [res_b_plain[-2:], err_b], "without_option": [res_c[-2:], err_c]})
                 elif wb.observe(with_sessions=False) != wc.observe(with_sessions=False):
